@@ -415,6 +415,10 @@ def effectiveness(total, tier):
             problems.append("fault kind %s was configured %d times and never fired" % (k.split(":", 1)[1], v))
     if not total.get("compared_loads"):
         problems.append("no load was compared with a pristine process")
+    io_faulted = sum(v for k, v in total.items() if k.startswith("fault_configured:io:"))
+    if io_faulted >= 50 and total.get("fault_reached_only_one_process", 0) > 0.5 * io_faulted:
+        problems.append("%d of %d faulted loads were not compared because the fault reached only one process" %
+                        (total["fault_reached_only_one_process"], io_faulted))
     if total.get("loads_failed", 0) in (0, total.get("loads", 0)):
         problems.append("loads either all failed or all succeeded")
     if not any(k.startswith("planted_failed:") for k in total):
